@@ -622,4 +622,47 @@ def r9_packet_fields(a, tier):
     return rep
 
 
-RULES = [r1_mirror, r2_codecs, r3_reader, r4_exception_sets, r5_file_lifecycle, r6_checksum, r7_queue_invariants, r8_rle_roundtrip, r9_packet_fields]
+_TOLERANT = {'replace', 'ignore', 'surrogateescape', 'backslashreplace'}
+
+
+def r10_reader_decoding(a, tier):
+    rep = RuleReport(
+        'C19.R10',
+        'reading the queue file cannot fail on its bytes: a record cut short inside a multi-byte character, or corrupted bytes, reach the '
+        'reader as undecodable input, and a text-mode reader decodes a whole block before the first line is returned - a strict decoder '
+        'raises UnicodeDecodeError before the complete records in front of the damage are delivered. Every open of the queue file for '
+        'reading in tatsu/packetz is binary or passes errors= with a policy that does not raise (replace / ignore / surrogateescape / '
+        'backslashreplace)',
+        floor=1,
+    )
+    n = 0
+    for f in a.p.functions.values():
+        if not f.module.name.startswith('tatsu.packetz.') or f.module.name.endswith(('test_packetz', '.__main__')):
+            continue
+        for c in walk_no_defs(f.node):
+            if not (isinstance(c, ast.Call) and ((isinstance(c.func, ast.Attribute) and c.func.attr == 'open') or (isinstance(c.func, ast.Name) and c.func.id == 'open'))):
+                continue
+            builtin = isinstance(c.func, ast.Name)
+            mode_e = (c.args[1] if builtin and len(c.args) > 1 else c.args[0] if not builtin and c.args else next((k.value for k in c.keywords if k.arg == 'mode'), None))
+            mode = mode_e.value if isinstance(mode_e, ast.Constant) and isinstance(mode_e.value, str) else ('r' if mode_e is None else None)
+            if mode is None:
+                raise AnalysisError(f'C19.R10: open() with a computed mode in {f.qualname}')
+            reads = ('r' in mode or '+' in mode) and 'b' not in mode
+            if not reads:
+                rep.add({'fn': f.qualname, 'open': norm(c)[:70], 'text_read': False})
+                continue
+            n += 1
+            err = next((k.value for k in c.keywords if k.arg == 'errors'), None)
+            policy = err.value if isinstance(err, ast.Constant) else None
+            ok = policy in _TOLERANT
+            rep.add({'fn': f.qualname, 'open': norm(c)[:90], 'text_read': True, 'errors_policy': policy, 'ok': ok})
+            if not ok:
+                rep.fail(f.qualname, f'strict-decoding:{mode}', f'`{norm(c)[:80]}` reads the queue file as text with the strict decoder (errors={policy!r}): a last record cut '
+                         f'inside a multi-byte character, or a corrupted byte anywhere in the block, makes the read raise UnicodeDecodeError before the complete '
+                         f'records in front of it are delivered', f'{f.module.relpath}:{c.lineno}')
+    if not n:
+        raise AnalysisError('C19.R10: no text-mode read of the queue file found in tatsu/packetz (anchor moved)')
+    return rep
+
+
+RULES = [r1_mirror, r2_codecs, r3_reader, r4_exception_sets, r5_file_lifecycle, r6_checksum, r7_queue_invariants, r8_rle_roundtrip, r9_packet_fields, r10_reader_decoding]
